@@ -930,7 +930,11 @@ class Sym(Interp):
             if k in cur:
                 after[k] = ("after", lid, k)
         if s.orelse:
+            # the else suite runs when the loop ends without `break`; a `break` exit skips it
+            left_by_break = self.fork_env(after) if lp["breaks"] else None
             after = self.exec_block(s.orelse, after, ctx)
+            if left_by_break is not None:
+                after = left_by_break if after is None else super().join_env(after, left_by_break)
         return after
 
     def st_Try(self, s, env, ctx):
